@@ -344,14 +344,17 @@ def _fit_dtype(rng, v, n=None):
     return rng.choices(tags, w)[0]
 
 
-def case_list(rng, rank=None, large_ax=None, cls=None):
+def case_list(rng, rank=None, large_ax=None, cls=None, long=None):
     """one integer list (python ints / NumPy scalars) or array (every integer dtype that holds the axis length) on a
     large axis: short lists at hot positions, long lists (> 256 entries)"""
     rank = rank or rng.choice([1, 2, 2, 3])
     large_ax = rng.randrange(rank) if large_ax is None else large_ax
     shape, chunks, hots = layout(rng, rank, [large_ax], cls)
     n = shape[large_ax]
-    v = _points(rng, n, hots[large_ax], rng.choice([0, 1, 2, 3, 5, 8]), long=rng.random() < 0.15)
+    long = rng.random() < 0.15 if long is None else long
+    v = _points(rng, n, hots[large_ax], rng.choice([0, 1, 2, 3, 5, 8]), long=long)
+    if long and rng.random() < 0.5:   # sorted / runs: the groups of the take follow the input chunks
+        v = sorted(v) if rng.random() < 0.6 else [q for q in v[:150] for _ in range(2)]
     r = rng.random()
     if r < 0.25:
         it = ["l", v]
@@ -384,7 +387,7 @@ def case_mask(rng, rank=None, large_ax=None, cls=None, dask=None):
     return {"fam": "large-dabool" if dask else "large-npbool", "shape": shape, "chunks": chunks, "acc": "getitem", "index": items}
 
 
-def case_vindex(rng, rank=None, arr_axes=None, large_axes=None, cls=None):
+def case_vindex(rng, rank=None, arr_axes=None, large_axes=None, cls=None, long=None):
     """point-wise indexing: index arrays on `arr_axes` (typed, hot positions), the other axes full slices kept in ONE
     block (several index arrays + a sliced axis in several blocks is the known class vindex:multi-array-multi-block),
     rarely an integer / a slice"""
@@ -399,7 +402,7 @@ def case_vindex(rng, rank=None, arr_axes=None, large_axes=None, cls=None):
     multi = len(arr_axes) > 1
     k = rng.choice([1, 2, 3, 5, 8])
     rest = int(np.prod([n for ax, n in enumerate(shape) if ax not in arr_axes]))
-    long = rng.random() < 0.08 and rest <= 600      # (points x sliced axes = size of the result)
+    long = (rng.random() < 0.08 if long is None else long) and rest <= 600      # (points x sliced axes = size of the result)
     if k * rest > 100000:
         k = 1
     two_d = multi and rng.random() < 0.15
@@ -436,7 +439,7 @@ def case_blocks(rng, rank=None, cls=None):
     M = _M()
     rank = rank or rng.choice([1, 1, 2])
     big = rng.randrange(rank)
-    nb = rng.choice([257, 258, 300, 513])
+    nb = rng.choice([257, 257, 258, 300, 513])
     shape, chunks = [], []
     for ax in range(rank):
         if ax == big:
@@ -476,7 +479,7 @@ def case_blocks(rng, rank=None, cls=None):
     return {"fam": "large-blocks", "shape": shape, "chunks": chunks, "acc": "blocks", "index": items}
 
 
-def case_daint(rng, rank=None, large_ax=None, cls=None):
+def case_daint(rng, rank=None, large_ax=None, cls=None, long=None):
     """a dask integer indexer (0-d / 1-d, every integer dtype that holds the values, produced by from_array or an op)
     on a large axis in few chunks"""
     rank = rank or rng.choice([1, 2, 2])
@@ -494,7 +497,7 @@ def case_daint(rng, rank=None, large_ax=None, cls=None):
         opts["dtype"] = _fit_dtype(rng, [v])
         it = ["dai", v, None, opts]
     else:
-        v = _points(rng, n, hots[large_ax], rng.choice([1, 2, 3, 5]), long=rng.random() < 0.1)
+        v = _points(rng, n, hots[large_ax], rng.choice([1, 2, 3, 5]), long=rng.random() < 0.1 if long is None else long)
         opts["dtype"] = _fit_dtype(rng, v)
         it = ["dai", v, [list(_M().gen.rand_chunks(rng, len(v), maxparts=3))], opts]
     items = [["s", None, None, None] for _ in shape]
@@ -546,7 +549,8 @@ def stratified(rng):
                     out.append(case_basic(rng, rank, lax, cls, kind))
                 for mode in ("overflow-int", "overflow-slice", "free"):
                     out.append(case_chain(rng, rank, lax, cls, mode))
-                out.append(case_list(rng, rank, lax, cls))
+                out.append(case_list(rng, rank, lax, cls, long=False))
+                out.append(case_list(rng, rank, lax, cls, long=True))     # more than 256 entries
                 out.append(case_mask(rng, rank, lax, cls, dask=False))
                 out.append(case_mask(rng, rank, lax, cls, dask=True))
                 if cls in ("one", "lt256", "gt256", "edge"):
@@ -558,15 +562,17 @@ def stratified(rng):
                 for lax in range(rank):
                     for cls in ("one", "lt256", "gt256", "edge"):
                         out.append(case_vindex(rng, rank, list(arr_axes), [lax], cls))
+                out.append(case_vindex(rng, rank, list(arr_axes), [rng.choice(arr_axes)], rng.choice(["lt256", "gt256", "edge"]), long=True))
                 if r >= 2:   # two large point-wise axes
                     for pair in itertools.combinations(arr_axes, 2):
                         out.append(case_vindex(rng, rank, list(arr_axes), list(pair), rng.choice(["gt256", "edge", "lt256"])))
     for rank in (1, 2):
-        for _ in range(4):
+        for _ in range(8):
             out.append(case_blocks(rng, rank))
         for lax in range(rank):
             for cls in ("one", "edge", "gt65536", "gt256"):
-                out.append(case_daint(rng, rank, lax, cls))
+                out.append(case_daint(rng, rank, lax, cls, long=False))
+            out.append(case_daint(rng, rank, lax, rng.choice(["edge", "gt256"]), long=True))
     return out
 
 
